@@ -64,8 +64,8 @@ MUTANTS = [
      "        else:\n            error = left.error + right.error\n        return Magnitude(value, error)\n        \n    def __sub__",
      "        else:\n            error = np.abs(left.error - right.error)\n        return Magnitude(value, error)\n        \n    def __sub__"),
     ("C08", "convert_scales_error_inversely", U + "unit_types.py",
-     "            magnitude1.error\n        )",
-     "            None if magnitude1.error is None else magnitude1.error * self.baseunits2.magnitude / self.baseunits1.magnitude\n        )"),
+     "            ratio = self.baseunits1.magnitude / self.baseunits2.magnitude",
+     "            ratio = self.baseunits2.magnitude / self.baseunits1.magnitude"),
     ("C08", "mul_error_of_negative_values_signed", U + "magnitude.py",
      "            minerror = np.abs((left.value-left.error)*(right.value-right.error) - value)\n            error = np.max([maxerror,minerror])",
      "            minerror = (left.value-left.error)*(right.value-right.error) - value\n            error = np.max([maxerror,minerror]) if np.all(value > 0) else np.min([maxerror,minerror])"),
